@@ -236,6 +236,9 @@ func (o *ObsC09) AfterOp(x *Exec, i int, op Op, res *OpResult) *vcore.Failure {
 			if _, ok := conf[ip]; !ok {
 				continue
 			}
+			if before.Key == "admin-reserved" && !x.Reserved[ip] {
+				continue // the administrator already deleted the reservation object; memory only learns it now (or by the watch event)
+			}
 			after, ok := alloc[ip]
 			if !ok {
 				return vcore.Failf("c09:reload:lost", "a reload dropped the allocation of %s (owner %q) although the IP is still configured", ip, before.Key)
